@@ -196,7 +196,7 @@ impl RefView {
         for ch in l.chars() {
             let w = ch.len_utf16() as u64;
             let (a, b) = (unit, unit + w);
-            if a < hi && b > lo {
+            if lo < hi && a < hi && b > lo {
                 out.push(ch);
             }
             unit = b;
@@ -277,6 +277,8 @@ mod tests {
         assert_eq!(s(0, u32::MAX, 2), None);
         assert_eq!(s(2, 0, 0), None);
         assert_eq!(s(1, 4, 0).as_deref(), Some(""));
+        // an empty range names no code unit, hence no character, even inside a pair
+        assert_eq!(s(0, 4, 0).as_deref(), Some(""));
         assert!(r.is_mid_pair(0, 4));
         assert!(!r.is_mid_pair(0, 3));
     }
